@@ -49,8 +49,8 @@ def _pair(rng, vr=False):
         t = gen.spell_alpha(rng, trgb, rng.choice((0.25, 0.5, 0.9, 1.0, 0.0)))[0]
         tk = "alpha"
     else:
-        t, tk = gen.spell(rng, trgb, gen.CSS_SPELLINGS + gen.API_ONLY_SPELLINGS + ("hsl", "hsl"))
-    b, _ = gen.spell(rng, bg, gen.CSS_SPELLINGS + gen.API_ONLY_SPELLINGS)
+        t, tk = gen.spell(rng, trgb, gen.CSS_SPELLINGS + gen.API_ONLY_SPELLINGS + ("hsl", "hsl") + (gen.EXOTIC_API_SPELLINGS if rng.random() < 0.3 else ()))
+    b, _ = gen.spell(rng, bg, gen.CSS_SPELLINGS + gen.API_ONLY_SPELLINGS + (gen.EXOTIC_API_SPELLINGS if rng.random() < 0.2 else ()))
     if rng.random() < 0.07:
         t = rng.choice(gen.POISON_STR + gen.POISON_OBJ)
         tk = "poison"
